@@ -1,14 +1,272 @@
 package main
 
-import "encoding/json"
+import (
+	"encoding/json"
+	"fmt"
+	"os"
+	"strings"
 
-// CorpusItem is one call to be re-executed as the first call of a fresh pristine process.
+	"verif/simrt"
+
+	"github.com/AsaiYusuke/jsonpath"
+)
+
+// C19 — Parse depends only on the path and the Config given to that call (DESIGN.md §4).
+//
+// The calls of all histories are drawn from a per-invocation corpus of (path, config)
+// items.  The driver executes every item as the FIRST call of a fresh process linked with
+// the pristine tree (R-pristine) and hands the outcomes to the workers; every call made
+// anywhere in a history must have exactly that outcome.
+
+// CorpusItem is one (path, config) call.
 type CorpusItem struct {
 	Path    string  `json:"path"`
 	Cfg     CfgSpec `json:"cfg"`
-	Outcome string  `json:"outcome"` // in-history outcome (Parse outcome + probe results + logs)
+	Fail    string  `json:"fail,omitempty"`
+	Outcome string  `json:"outcome,omitempty"`
 }
 
-func oneshot(file string, enc *json.Encoder) {
-	panic("todo")
+type itemOutcome struct {
+	Parse  string   `json:"parse"`
+	Probes []string `json:"probes"`
+}
+
+func (o itemOutcome) String() string { return o.Parse + " || " + strings.Join(o.Probes, " || ") }
+
+func corpusSize() int {
+	if tier == "thorough" {
+		return 4000
+	}
+	return 400
+}
+
+func buildCorpus(seed uint64) []CorpusItem {
+	simrt.Seed(splitmix(seed ^ 0xC19C19))
+	n := corpusSize()
+	items := make([]CorpusItem, 0, n)
+	for len(items) < n {
+		cfg := genCfg(true)
+		var p *PathSpec
+		switch rn(10) {
+		case 0, 1, 2:
+			p = genFailPath()
+		case 3:
+			p = genInternalPanicPath(cfg.Funcs)
+		case 4:
+			// functions the config may not have: ErrorFunctionNotFound for some configs
+			p = genPath(1<<nFuncs-1, false, 3, 2)
+		default:
+			p = genPath(cfg.Funcs, chance(20), 4, 2)
+		}
+		items = append(items, CorpusItem{Path: p.Text, Cfg: cfg, Fail: p.Fail})
+	}
+	return items
+}
+
+func probeDocs() []interface{} {
+	return []interface{}{
+		map[string]interface{}{"a": 1.0, "b": "x", "c": []interface{}{1.0, 2.0, map[string]interface{}{"a": 2.0}},
+			"list": []interface{}{map[string]interface{}{"a": 1.0, "b": 2.0}, map[string]interface{}{"a": 2.0, "b": "x"}, map[string]interface{}{"b": nil}},
+			"x":    map[string]interface{}{"a": map[string]interface{}{"b": []interface{}{0.0, 1.0}}}},
+		[]interface{}{map[string]interface{}{"a": 1.0, "b": 1.0}, map[string]interface{}{"a": "a", "c": []interface{}{}}, []interface{}{1.0, 2.0, 3.0}, "s", nil},
+		map[string]interface{}{"a": []interface{}{[]interface{}{1.0, 2.0}, []interface{}{3.0}}, "b": map[string]interface{}{"a": true}},
+	}
+}
+
+// probe exercises a parsed function on the fixed probe documents with recording callbacks.
+func probe(fn fnType, rec *Recorder) []string {
+	var out []string
+	s := recSlot()
+	old := curRec[s]
+	curRec[s] = rec
+	for _, d := range probeDocs() {
+		rec.reset([nFuncs]uint64{})
+		simrt.OpStart()
+		_, o := safeCall(fn, d)
+		out = append(out, o+" log="+rec.log())
+		if simrt.Aborted() != 0 {
+			break
+		}
+	}
+	curRec[s] = old
+	return out
+}
+
+func execItem(it CorpusItem, cfgs []jsonpath.Config, inject int, rec *Recorder) (fnType, itemOutcome) {
+	simrt.OpStart()
+	fn, out := safeParse(it.Path, cfgs, inject)
+	o := itemOutcome{Parse: out}
+	if fn != nil && simrt.Aborted() == 0 {
+		o.Probes = probe(fn, rec)
+	}
+	return fn, o
+}
+
+// oneshot executes corpus item i as the first library call of this process.
+func oneshot(seed uint64, i int, enc *json.Encoder) {
+	items := buildCorpus(seed)
+	if i < 0 || i >= len(items) {
+		fmt.Fprintln(os.Stderr, "worker: item out of range")
+		os.Exit(2)
+	}
+	simrt.SetMode(simrt.ModeOff)
+	_, o := execItem(items[i], cfgArgs(items[i].Cfg), 0, &Recorder{})
+	enc.Encode(map[string]interface{}{"t": "oneshot", "i": i, "outcome": o.String(), "path": items[i].Path, "cfg": items[i].Cfg.String()})
+}
+
+func emitCorpus(seed uint64, enc *json.Encoder) {
+	for i, it := range buildCorpus(seed) {
+		enc.Encode(map[string]interface{}{"t": "item", "i": i, "path": it.Path, "cfg": it.Cfg.String(), "fail": it.Fail})
+	}
+}
+
+var (
+	c19Corpus []CorpusItem
+	c19Expect []string
+)
+
+func loadC19(seed uint64, expectFile string) {
+	c19Corpus = buildCorpus(seed)
+	if expectFile == "" {
+		return
+	}
+	b, err := os.ReadFile(expectFile)
+	if err != nil {
+		fmt.Fprintln(os.Stderr, "worker:", err)
+		os.Exit(2)
+	}
+	if err := json.Unmarshal(b, &c19Expect); err != nil || len(c19Expect) != len(c19Corpus) {
+		fmt.Fprintln(os.Stderr, "worker: bad expectation file")
+		os.Exit(2)
+	}
+}
+
+// keptConfig is a long-lived Config value that the caller keeps modifying.
+type keptConfig struct {
+	cfg  jsonpath.Config
+	spec CfgSpec
+}
+
+func replacedFilter(v interface{}) (interface{}, error) { return "REPLACED-AFTER-PARSE", nil }
+func replacedAggregate(v []interface{}) (interface{}, error) {
+	return "REPLACED-AFTER-PARSE", nil
+}
+
+func runC19() *RunResult {
+	w := &World{prop: "C19"}
+	if c19Corpus == nil {
+		panic("C19 corpus not loaded")
+	}
+	nt := 1
+	if chance(35) {
+		nt = 2 + rn(3)
+	}
+	n := len(c19Corpus)
+	cases := []uint64{}
+	for ti := 0; ti < nt; ti++ {
+		t := &Task{id: ti}
+		var kept *keptConfig
+		var keptFns []struct {
+			fn   fnType
+			item int
+		}
+		nh := 2 + rn(9)
+		for h := 0; h < nh; h++ {
+			item := rn(n)
+			it := c19Corpus[item]
+			kind := rn(10)
+			inject := 0
+			if kind == 0 {
+				inject = 1 + rn(150)
+			}
+			useKept := kind == 1 || kind == 2
+			o := &Op{Kind: opCustom, Path: &PathSpec{Text: it.Path}, Cfg: it.Cfg, Inject: inject}
+			cases = append(cases, fnv(it.Path+"|"+it.Cfg.String()))
+			o.Do = func(t *Task, o *Op) {
+				cfgs := cfgArgs(it.Cfg)
+				if useKept && it.Cfg.Present {
+					// the same Config value is reused for many calls and modified in between
+					if kept == nil || kept.spec != it.Cfg {
+						kept = &keptConfig{cfg: buildConfig(it.Cfg), spec: it.Cfg}
+					}
+					cfgs = []jsonpath.Config{kept.cfg}
+					t.probe("config-value-reused")
+				}
+				fn, got := execItem(it, cfgs, inject, &t.rec)
+				o.Got = got.String()
+				if simrt.Aborted() != 0 {
+					return
+				}
+				if inject > 0 && strings.Contains(got.Parse, "InjectedPanic") {
+					t.fault("injected-panic-in-parse")
+					return // the call hit by the fault is not judged; everything after it is
+				}
+				if inject > 0 {
+					t.probe("injection-point-beyond-parse(call-judged)")
+				}
+				if useKept && fn != nil && kept != nil && it.Cfg.Present {
+					keptFns = append(keptFns, struct {
+						fn   fnType
+						item int
+					}{fn, item})
+				}
+				if it.Fail != "" {
+					t.fault("parse-failed:" + it.Fail)
+				}
+				if c19Expect != nil {
+					t.judged++
+					if o.Got != c19Expect[item] {
+						t.fail("C19:outcome-differs-from-first-call-in-fresh-process", it.Path,
+							fmt.Sprintf("Parse(%q, %s) at position %d of task %d's history\n  got               %s\n  fresh process got %s", it.Path, it.Cfg, h, t.id, clip(o.Got, 600), clip(c19Expect[item], 600)))
+					}
+				}
+			}
+			t.ops = append(t.ops, o)
+			if useKept && chance(60) {
+				// modify the kept Config after Parse used it, then re-exercise what was parsed before
+				m := &Op{Kind: opCustom, Path: &PathSpec{Text: "modify Config, re-probe earlier functions"}}
+				m.Do = func(t *Task, o *Op) {
+					if kept == nil {
+						o.Got = "no kept config"
+						return
+					}
+					for f := 0; f < nFuncs; f++ {
+						if isAggregate(f) {
+							kept.cfg.SetAggregateFunction(funcNames[f], replacedAggregate)
+						} else {
+							kept.cfg.SetFilterFunction(funcNames[f], replacedFilter)
+						}
+					}
+					kept.cfg.SetAccessorMode()
+					kept.spec = CfgSpec{Present: true, Funcs: ^uint32(0)} // never equal to a corpus config again
+					t.probe("config-modified-after-parse")
+					o.Got = fmt.Sprintf("re-probed %d", len(keptFns))
+					for _, kf := range keptFns {
+						pr := probe(kf.fn, &t.rec)
+						if simrt.Aborted() != 0 {
+							return
+						}
+						got := itemOutcome{Parse: "FN", Probes: pr}.String()
+						if c19Expect != nil {
+							t.judged++
+							if got != c19Expect[kf.item] {
+								t.fail("C19:function-changed-when-config-was-modified", c19Corpus[kf.item].Path,
+									fmt.Sprintf("function parsed from %q with %s, after its Config value was modified\n  got           %s\n  as parsed     %s", c19Corpus[kf.item].Path, c19Corpus[kf.item].Cfg, clip(got, 600), clip(c19Expect[kf.item], 600)))
+								return
+							}
+						}
+					}
+					keptFns = nil
+					kept = nil
+				}
+				t.ops = append(t.ops, m)
+			}
+		}
+		w.tasks = append(w.tasks, t)
+	}
+	drawSchedule(nt, &w.cfg)
+	res := w.run()
+	w.progressVerdict(res)
+	res.Cases = cases
+	return res
 }
